@@ -286,7 +286,24 @@ func g16DeclaredLens(b []byte) []uint32 {
 	return []uint32{binary.BigEndian.Uint32(b[off:])}
 }
 
+// g16PrefixOffsets returns the byte offsets of the slice-length prefixes.
+func g16PrefixOffsets(b []byte) []int {
+	rd := bytes.NewReader(b)
+	dec := curve.NewDecoder(rd)
+	var a, k curve.G1Affine
+	var bs curve.G2Affine
+	if dec.Decode(&a) != nil || dec.Decode(&bs) != nil || dec.Decode(&k) != nil {
+		return nil
+	}
+	off := int(dec.BytesRead())
+	if off+4 > len(b) {
+		return nil
+	}
+	return []int{off}
+}
+
 func init() {
+	Ops.G16PrefixOffsets = g16PrefixOffsets
 	Ops.G16DeclaredLens = g16DeclaredLens
 	Ops.G16Clone = func(p any) any { return g16clone(p.(*g16.Proof)) }
 	Ops.G16SingleEdits = g16SingleEdits
